@@ -16,6 +16,17 @@ function expectedProps(contribs, opts) {
   return opts.mergeProps ? V.mergeProps(...objs) : Object.assign({}, ...objs);
 }
 
+// tag uses of one name under different bindings, several per module (classification must be per occurrence)
+const USES = {
+  unboundU: { tpl: (i) => `__out.k${i} = () => <Item />;`, type: 'resolved:Item' },
+  paramU:   { tpl: (i) => `__out.k${i} = (Item) => <Item />;`, type: 'comp:Comp' },
+  localU:   { tpl: (i) => `__out.k${i} = () => { const Item = B; return <Item />; };`, type: 'comp:B' },
+  unboundL: { tpl: (i) => `__out.k${i} = () => <item />;`, type: 'resolved:item' },
+  paramL:   { tpl: (i) => `__out.k${i} = (item) => <item />;`, type: 'comp:Comp' },
+  htmlParam:{ tpl: (i) => `__out.k${i} = (div) => <div />;`, type: 'tag:div' },
+};
+const USE_KEYS = Object.keys(USES);
+
 function spaces(tier) {
   const thorough = tier === 'thorough';
   const mk = (name, hosts, alphabet, maxLen, minLen = 0) => ({
@@ -38,6 +49,11 @@ function spaces(tier) {
     sp.push(mk('A:full-3', ['div', 'Comp'], E.ALL_ATTRS, 3, 3));
     sp.push(mk('A:merge-4', ['div'], ['id', 'clsS', 'clsD', 'styS', 'styO', 'onClick1', 'onClick2', 'sp1', 'sp2', 'spObj', 'spCall', 'on', 'bool'], 4, 4));
   }
+  sp.push({
+    name: 'P:tag-uses-per-module',
+    bounds: { uses: USE_KEYS, max_length: thorough ? 4 : 3, note: 'several elements with the same tag name under different bindings in one module' },
+    *gen() { for (const seq of sequences(USE_KEYS.length, thorough ? 4 : 3, { minLen: 1 })) yield { sp: 'P', uses: seq.map((i) => USE_KEYS[i]) }; },
+  });
   const sLen = thorough ? 5 : 4;
   sp.push({
     name: 'S:attribute-strings',
@@ -52,6 +68,7 @@ function requests(c) {
     const t = c.s.map((i) => SYM[i][1]).join('');
     return [{ src: E.PRELUDE + `__out.mk = () => <div title="${t}" />;\n`, want: ['eval'], opts: '{}' }];
   }
+  if (c.sp === 'P') return [{ src: E.PRELUDE + c.uses.map((u, i) => USES[u].tpl(i)).join('\n') + '\n', want: ['eval'], opts: '{}' }];
   const h = E.HOSTS[c.host];
   const jsx = E.renderJsx(c.host, c.attrs.map((k) => E.ATTRS[k].src), []);
   return [{ src: E.renderModule(c.host, jsx), want: ['eval'], opts: E.optsJson(Object.assign({ pattern: !!h.pattern }, c.o)) }];
@@ -77,6 +94,17 @@ function judge(c, resps) {
   let obs;
   withModule(r.eval_js, env, (out, rec, loadError) => {
     if (loadError) { viol.push({ clause: 'load', diff: 'exception:' + loadError.name, msg: errStr(loadError) }); return; }
+    if (c.sp === 'P') {
+      const seen = [];
+      c.uses.forEach((u, i) => {
+        let t;
+        try { t = canonValue(out['k' + i](env.bound.Comp), ctx, []); } catch (e) { viol.push({ clause: 'create', diff: 'exception:' + e.name, msg: errStr(e) }); return; }
+        seen.push(t && t.type);
+        if (stable(t && t.type) !== stable(USES[u].type)) viol.push({ clause: 'type', diff: 'type:different', msg: `vnode type of use ${i} (${u})`, expected: USES[u].type, observed: t && t.type });
+      });
+      obs = stable(seen);
+      return;
+    }
     let v;
     try { v = out.mk(); } catch (e) { viol.push({ clause: 'create', diff: 'exception:' + e.name, msg: errStr(e) }); return; }
     const o = canonValue(v, ctx, []);
@@ -96,10 +124,13 @@ function judge(c, resps) {
     const d = diff(eProps, o && o.props);
     if (d) viol.push({ clause: 'props', diff: 'props' + diffClass(d), msg: `props differ at ${d.path}`, expected: eProps, observed: o && o.props });
   });
-  return { viol, obs, nontrivial: c.sp === 'S' ? c.s.length > 0 : c.attrs.length > 0, clauses: c.sp === 'S' ? ['attr-string'] : ['type', 'props'] };
+  const uniq = new Map();
+  for (const v of viol) if (!uniq.has(v.clause + v.diff)) uniq.set(v.clause + v.diff, v);
+  return { viol: [...uniq.values()], obs, nontrivial: c.sp === 'S' ? c.s.length > 0 : c.sp === 'P' ? true : c.attrs.length > 0, clauses: c.sp === 'S' ? ['attr-string'] : c.sp === 'P' ? ['type'] : ['type', 'props'] };
 }
 
 function* shrink(c) {
+  if (c.sp === 'P') { for (let i = 0; i < c.uses.length; i++) if (c.uses.length > 1) yield { sp: 'P', uses: c.uses.slice(0, i).concat(c.uses.slice(i + 1)) }; return; }
   if (c.sp === 'S') {
     for (let i = 0; i < c.s.length; i++) yield { sp: 'S', s: c.s.slice(0, i).concat(c.s.slice(i + 1)) };
     for (let i = 0; i < c.s.length; i++) if ([9, 10].includes(c.s[i])) { const s = c.s.slice(); s[i] = 0; yield { sp: 'S', s }; }
@@ -114,6 +145,7 @@ function* shrink(c) {
 }
 
 function caseKey(c) {
+  if (c.sp === 'P') return 'P:' + c.uses.join(',');
   if (c.sp === 'S') return 'S:' + c.s.map((i) => SYM[i][0]).join('.');
   const o = Object.keys(c.o).filter((k) => c.o[k]).join('+') || '-';
   return `A:${c.host}[${c.attrs.join(',')}]{${o}}`;
@@ -125,5 +157,5 @@ module.exports = {
   rule: 'explicit-state BFS over attribute-sequence histories (ordered sequences of distinct attribute events, shortest first) × host kinds × option vectors; every state is transformed by the real visitor, the output is executed against a mock Vue runtime, and vnode type + props (after Vue\'s own class/style normalisation) are compared with the reference fold (Vue mergeProps when mergeProps is on, Object.assign when off, transformOn contributions); plus every string over the whitespace alphabet as an attribute string value against the reference JSX text rule. Non-trivial = non-empty history; distinct = distinct canonical (type, props).',
   assumptions: ['mock Vue runtime (createVNode, mergeProps, normalizeClass/Style, resolveComponent, transformOn helper)', 'node evaluator', 'reference props fold and JSX text rule written from the property statement'],
   spaces, requests, judge, shrink, caseKey,
-  depth: (c) => (c.sp === 'S' ? c.s.length : c.attrs.length),
+  depth: (c) => (c.sp === 'S' ? c.s.length : c.sp === 'P' ? c.uses.length - 1 : c.attrs.length),
 };
